@@ -1,8 +1,12 @@
 ------------------------------ MODULE MC_Context ------------------------------
 EXTENDS Context, Json
 
-CONSTANTS Mode, MaxHist, SubVariants
+CONSTANTS Mode, MaxHist, SubVariants, AccSet
 Keys2 == {"leaf", "inner"}
+\* accessors: <<key, flavour>>.  "base": the string and rendered-view flavours of the two keys;  "wide": also the Display flavour
+\* and the formatter accessors (t_format! / t_format_string!, key "fmt": no key path, the text tells the locale apart)
+AccOptions == { <<k, f>> : k \in Keys2, f \in {"string", "view"} }
+              \cup (IF AccSet = "wide" THEN { <<"inner", "display">>, <<"fmt", "format">>, <<"fmt", "format_string">> } ELSE {})
 
 \* C15: every creation parameter of the main context, then at most one sub-context with every parameter
 Init15 == InitWith(BOOLEAN, BOOLEAN, Cookies, Headers)
@@ -17,7 +21,7 @@ Next15 == /\ Len(ctxs) = 1
 Init16 == InitWith({TRUE}, {FALSE}, { [state |-> "absent", l |-> None], [state |-> "valid", l |-> "fr"] }, { <<>>, <<"de">> })
 Next16 == \/ \E v \in DOMAIN views, x \in Locs, t \in BOOLEAN : SetLocale(v, x, t)
           \/ \E v \in DOMAIN views : ScopeView(v)
-          \/ \E v \in DOMAIN views, k \in Keys2, f \in {"string", "view"} : MakeAccessor(v, k, f)
+          \/ \E v \in DOMAIN views, o \in AccOptions : MakeAccessor(v, o[1], o[2])
           \/ \E parent \in DOMAIN ctxs, initial \in {None, "de"} :
                 CreateSub(parent, FALSE, [state |-> "absent", l |-> None], initial, <<>>)
 
@@ -29,6 +33,7 @@ MCSpec == MCInit /\ [][MCNext]_vars
 NoHist == <<ctxs, views, accs>>
 \* ... behaviour generation keeps it, bounded
 HistBound == Len(hist) <= MaxHist
-\* one CASE per behaviour: printed for every state, the harness keeps maximal ones and a sample of prefixes
-EmitCases == PrintT(<<"CASE", ToJson([family |-> "context", mode |-> Mode, abs |-> [hist |-> hist, default |-> Default]])>>)
+\* one CASE per behaviour.  C15: every state (behaviours are one or two creations);  C16: full-length behaviours only (a shorter
+\* one is the prefix of a longer one, which replays it)
+EmitCases == (Mode = "c16" /\ Len(hist) < MaxHist) \/ PrintT(<<"CASE", ToJson([family |-> "context", mode |-> Mode, abs |-> [hist |-> hist, default |-> Default]])>>)
 =============================================================================
